@@ -26,6 +26,8 @@ def menu(n, keys, vals):
             ops.append(["extend_dict", k, v])
             ops.append(["extend_md", k, v])
             ops.append(["extend_kw", k, v])
+            ops.append(["extend_live", k, v])
+            ops.append(["construct_from", k, v])
     for k in keys:
         ops.append(["delitem", k])
         ops.append(["popk", k])
@@ -100,6 +102,12 @@ def apply(L, op, keys, vals):
         L.extend([(op[1], op[2]), second_pair(op[1], op[2], keys, vals)]); return ("ok", None)
     if n == "extend_md":
         L.extend([(op[1], op[2]), (op[1], vals[-1])]); return ("ok", None)
+    if n == "extend_live":
+        # extend from a second live container, then both go their own way
+        L.extend([(op[1], op[2]), (op[1], vals[-1])]); L.append((op[1], vals[0])); return ("ok", None)
+    if n == "construct_from":
+        # a second container is built from this one and then changed: nothing happens here
+        return ("ok", None)
     if n in ("insert3", "insert_pair", "insert_klist", "insert_dict", "insert_list1"):
         _slice_insert(L, op[1], [(op[2], op[3])]); return ("ok", None)
     if n == "insert_list2":
